@@ -49,6 +49,7 @@ HASGID = "old(config.has_option('pygopherd', 'setgid'))"
 
 
 def register(w):
+    w.always_standin["C19"] = [("pygopherd/initialization.py::initialize", "the whole start-up run against recorders (bind busy once / for good, each privileged call failing in turn, all option combinations): a net under the proof for restructured start-up code")]
     w.contract(
         INIT + "init_security",
         params={"config": "obj:Config"},
